@@ -235,6 +235,27 @@ pub fn cases_for(prop: &str, tier: &str, seed: u64, shard: (usize, usize)) -> (V
                 cases.push(c);
             }
         }
+        "C19" => {
+            let n = budget(tier, 500, 12000) / shard.1;
+            family_random_docs(&mut cases, &pool, &mut rng, n, "collect", &format!("c{}x", shard.0), false);
+            // fragment-heavy documents (cycles, unknown fragment names) on the minimal schema
+            let minimal = pool.iter().position(|s| s.name == "minimal").unwrap();
+            for i in 0..(n / 4) {
+                let k = rng.range(1, 3);
+                let edges = (rng.next() & 0x1FF) as u32;
+                let doc = cyclic_doc(k, edges, rng.below(3), rng.below(3), rng.below(3), rng.below(8) as u32).print();
+                cases.push(Case { id: format!("cg{}x{}", shard.0, i), family: "fragment-graph".into(), schema: minimal, op: "collect".into(), doc: Some(doc), extra: vec![], note: String::new() });
+            }
+            if shard.0 == 0 {
+                for (id, sname, doc) in [
+                    ("alias", "pets", "subscription { x: onNewPet { name } y: onNewPet { name } onNewPet { n: name name } ...F ... on Subscription { z: onNewPet { name } } ... on Query { q: human { name } } } fragment F on Subscription { x: onNewPet { nickname: name } ...F ...G } fragment G on Query { human { name } }"),
+                    ("conds", "crate", "{ dog { name ... on Pet { n1: name } ... on Canine { n2: name } ... on CatOrDog { n3: name } ... on Cat { n4: name } ... on Mammal { mother { name } } ...DF ...PF ...UF ...Missing } } fragment DF on Dog { n5: name ...PF } fragment PF on Pet { n6: name ...DF } fragment UF on Human { n7: name }"),
+                ] {
+                    let si = pool.iter().position(|s| s.name == sname).unwrap();
+                    cases.push(Case { id: format!("corpus-{}", id), family: "corpus".into(), schema: si, op: "collect".into(), doc: Some(doc.to_string()), extra: vec![], note: String::new() });
+                }
+            }
+        }
         "C03" => {
             cases.extend(c03_cases(&pool, &mut rng, tier, shard));
         }
@@ -267,6 +288,7 @@ pub fn run_impl(c: &Case, si: &SchemaInfo, doc: Option<&q::Document>) -> Vec<Str
     match c.op.as_str() {
         "trace" => crate::op_trace::run_trace(&si.doc, doc.unwrap()),
         "strace" => crate::op_trace::run_strace(&si.doc),
+        "collect" => crate::op_misc::run_collect(&si.doc, doc.unwrap()),
         "validate13" => crate::op_validate::run_validate13(&si.doc, doc.unwrap(), &crate::op_validate::parse_plan(&c.extra[0])),
         "validate" => crate::op_validate::run_validate(&si.doc, doc.unwrap(), &crate::op_validate::parse_plan(&c.extra[0])),
         _ => vec!["NOIMPL".to_string()],
